@@ -646,6 +646,9 @@ enum ROp {
     Release { c: u16 },
     /// the path is deactivated
     RetireCell { c: u16 },
+    /// the path is deactivated *while its burst is still in progress* (another task removes the
+    /// path while a packet is being assembled); the burst ends right afterwards
+    RetireCellBusy { c: u16 },
     /// all bursts end, then every path is inspected
     Settle,
 }
@@ -1258,6 +1261,41 @@ fn run_remote_inner(case: &RCase, ctx: &mut CaseCtx) -> Outcome {
                 let after = rm.borrow(ci, step, false)?;
                 ensure!(after.is_none(), "remote-retired-path-borrow", "step {step}: deactivated path {ci}");
             }
+            ROp::RetireCellBusy { c } => {
+                let ci = gens::idx(*c, n);
+                let Some(in_use) = rm.cm[ci].guard else { continue };
+                if rm.cm[ci].retired {
+                    continue;
+                }
+                // whatever the path holds is given up voluntarily; the model regards the burst
+                // as over (a RETIRE for the ID it was sending with is expected now), the real
+                // guard is only dropped after the deactivation - that is the interleaving
+                rm.voluntary.insert(in_use);
+                rm.cm[ci].guard = None;
+                rm.cells[ci].retire();
+                rm.cm[ci].retired = true;
+                rm.st.retire_cells += 1;
+                // a replacement that was queued next to the ID in use is given up with the path:
+                // what the deactivation itself retires counts as given up (the other invariants -
+                // issued by the peer, at most once, not in use by another path - still apply)
+                let emitted: Vec<u64> = rm.sink.0.lock().unwrap()[rm.seen..].to_vec();
+                rm.voluntary.extend(emitted);
+                rm.drain(step, "retire-path-in-burst")?;
+                if let Some(g) = rm.guards.0[ci].take() {
+                    drop(g);
+                }
+                rm.drain(step, "release-after-retire")?;
+                // the ID the path was sending with is abandoned for good: exactly one RETIRE
+                ensure_eq!(
+                    rm.retire_cnt.get(&in_use).copied().unwrap_or(0),
+                    1,
+                    "remote-retire-missing:path-deactivated-in-burst",
+                    "step {step}: path {ci} was deactivated while sending with seq {in_use}; RETIRE_CONNECTION_ID({in_use}) count"
+                );
+                let after = rm.borrow(ci, step, false)?;
+                ensure!(after.is_none(), "remote-retired-path-borrow", "step {step}: deactivated path {ci}");
+                ctx.class("path-deactivated-in-burst");
+            }
             ROp::Settle => rm.settle(step, ctx)?,
         }
     }
@@ -1319,6 +1357,7 @@ fn rop_strategy() -> BoxedStrategy<ROp> {
         1 => (0u8..=12, 0u8..=12).prop_map(|(seq, rpt)| ROp::FrameAbs { seq, rpt: rpt.min(seq) }),
         6 => any::<u16>().prop_map(|c| ROp::Borrow { c }),
         4 => any::<u16>().prop_map(|c| ROp::Release { c }),
+        2 => any::<u16>().prop_map(|c| ROp::RetireCellBusy { c }),
         1 => any::<u16>().prop_map(|c| ROp::RetireCell { c }),
         1 => Just(ROp::Settle),
     ]
